@@ -6,8 +6,8 @@
    order, (d) which files exist afterwards, (e) the shape of the returned value.  Numerical
    content (what the minimiser computes) is abstract.
 
-   The model has three switches (record [variant]) for the three defects found in the pinned tree;
-   [fixed] is the code with fixes/C27-1..3.patch applied, [orig] the pinned code:
+   The model has four switches (record [variant]) for the four defects found in the pinned tree;
+   [fixed] is the code with fixes/C27-1..4.patch applied, [orig] the pinned code:
 
      fix_pop     (C27-1)   if dry_run: ...; pop_sseq(); continue
                            if _handle_terminate_callback(...): pop_sseq(); break
@@ -19,14 +19,18 @@
                            unconditionally
                  orig:     only inside `if output_directory is not None:` => a call with
                            output_directory=None keeps writing into the directory of an earlier call
+     fix_mean    (C27-4)   SampleList.save(.., overwrite=True) removes a stale "<base>.mean.pickle"
+                 orig:     the mean file of an earlier ResidualSampleList with the same name stays;
+                           on resume the files are taken for a ResidualSampleList (the real loader
+                           then raises KeyError; the [orig] model only records the stale file)
 
    Source lines are quoted next to the definitions. *)
 From Coq Require Import List Bool Arith Lia.
 Import ListNotations.
 
-Record variant := mkVar { fix_pop : bool; fix_iglobal : bool; fix_global : bool }.
-Definition fixed : variant := mkVar true true true.
-Definition orig : variant := mkVar false false false.
+Record variant := mkVar { fix_pop : bool; fix_iglobal : bool; fix_global : bool; fix_mean : bool }.
+Definition fixed : variant := mkVar true true true true.
+Definition orig : variant := mkVar false false false false.
 
 (* ---- files (relative to the output directory) ---- *)
 Inductive fname := Latest | Iter (i : nat).          (* _file_name_by_strategy *)
@@ -147,10 +151,13 @@ Fixpoint write_samples (f : fname) (n : nat) (s : lstate) : lstate :=
 (*  sl.save(join(output_directory, "pickle/") + _file_name_by_strategy(iglobal), overwrite=True)
       _ensure_proper_sample_list_ending(_sample_file_name(base, self.n_samples), overwrite, comm)
           -> unlink(missing_ok=True) of the "next" sample
+      SampleList only, [fix_mean]: pathlib.Path(base + ".mean.pickle").unlink(missing_ok=True)
       for isample in local_indices: _save_to_disk(_sample_file_name(base, isample), ...)
       ResidualSampleList only: _save_to_disk(base + ".mean.pickle", ...)                       *)
-Definition save_sl (f : fname) (s : lstate) : lstate :=
-  let s1 := write_samples f (sl_n s) (unlink (FSample f (sl_n s)) s) in
+Definition save_sl (v : variant) (f : fname) (s : lstate) : lstate :=
+  let s0 := unlink (FSample f (sl_n s)) s in
+  let s0 := if negb (sl_res s) && fix_mean v then unlink (FMean f) s0 else s0 in
+  let s1 := write_samples f (sl_n s) s0 in
   if sl_res s then write (FMean f) s1 else s1.
 
 (* ---- one pass through the body of `for iglobal in range(initial_index, total_iterations):` ---- *)
@@ -169,10 +176,10 @@ Definition minimise (o : opts) (i : nat) (s : lstate) : lstate :=
        _export_operators(...); sl.save(...); write last_finished_iteration;
        _pickle_save_values(iglobal, 'energy_history', ...)
        if plot_energy_history: _plot_energy_history(iglobal, ...)   [second plot only `if index > 0`] *)
-Definition save_block (o : opts) (i : nat) (s : lstate) : lstate :=
+Definition save_block (v : variant) (o : opts) (i : nat) (s : lstate) : lstate :=
   if outdir o then
     let s := if export o then write (FExport (fn o i)) s else s in
-    let s := save_sl (fn o i) s in
+    let s := save_sl v (fn o i) s in
     let s := write (FEnergyHist (fn o i)) (write FLast s) in
     if plot_e o then
       let s := write (FEnergyPlot (fn o i)) s in
@@ -213,7 +220,7 @@ Definition iteration (v : variant) (o : opts) (e : env) (i : nat) (s : lstate)
   if dry o then Ok (if fix_pop v then pop (enter o i s) else enter o i s, false) else
   (* without a sampling_iteration_controller samples cannot be drawn *)
   if negb (sic o) && negb (nsamp o i =? 0) then Err EOther else
-  match report_block v o e i (save_block o i (minimise o i (enter o i s))) with
+  match report_block v o e i (save_block v o i (minimise o i (enter o i s))) with
   | Err x => Err x
   | Ok s1 => Ok (callbacks v o i s1)
   end.
